@@ -7,9 +7,9 @@ use arrow_buffer::{BooleanBuffer, Buffer as ABuffer};
 
 //@ tier: quick
 //@ functions: arrow_data::data::{contains_nulls, count_nulls}, BitSliceIterator::{new, next}, Buffer::count_set_bits_offset
-//@ bound: validity mask of 3 bytes viewed at NullBuffer offset 0..=5, queried range (offset, len) inside it: contains_nulls is true iff some row of the range is null; count_nulls = number of null rows (independent of the physical offset); unwind 8
+//@ bound: validity mask of 3 bytes viewed at NullBuffer offset 0..=5, queried range (offset, len) inside it: contains_nulls is true iff some row of the range is null; count_nulls = number of null rows (independent of the physical offset); unwind 21
 #[kani::proof]
-#[kani::unwind(8)]
+#[kani::unwind(21)]
 fn c02_contains_and_count_nulls() {
     let raw: [u8; 3] = kani::any();
     let noff: usize = kani::any();
